@@ -70,6 +70,7 @@ static bool usesAlpha(TypeOneDRule r){ return r == rule_gaussgegenbauer || r == 
 static bool usesBeta(TypeOneDRule r){ return r == rule_gaussjacobi || r == rule_gaussjacobiodd; }
 
 // class of the state: linear transforms are decided per rule (switch statements over the rule enum), the conformal code is rule-independent
+static const Cfg *g_cfg0 = nullptr; // configuration whose history is being explored: recorded in every violation so that --replay re-runs the same history
 static bool g_hang_seen = false; // per configuration: once a watchdog expired, later conformal+linear states skip their evaluation phase
 static std::string ctag(const Cfg &e){ return e.conformal.empty() ? "" : (e.ta.empty() ? "conformal:" : "conformal+linear:"); }
 static std::string pre(const Cfg &e, const char *what){ return "C10:" + ctag(e) + what + ":"; }
@@ -86,7 +87,7 @@ static void check(Ctx &c, const Cfg &E, const TasmanianSparseGrid &G, const Tasm
     double tolE = conf ? 1e-8 : 1e-9; if (wav) tolE = 1e-7; if (conf && (G.isGlobal() || G.isSequence())) tolE = std::max(tolE, 2e-11 * (double) n * (double) n);
     std::vector<LinMap> M; for(int j=0;j<d;j++) M.push_back(linmap(E, j));
     Ctx *cp = &c; // the evaluation phase of a conformal+linear state runs in a watchdog child with a context of its own
-    auto rep = [&](const std::string &sig, const std::string &detail){ report(*cp, sig, E, hist, detail); };
+    auto rep = [&](const std::string &sig, const std::string &detail){ report(*cp, sig, g_cfg0 ? *g_cfg0 : E, hist + " | transforms of the state: " + E.str().substr(E.str().find(";order=") + 1), detail); };
     auto cnt = [&](const char *k){ cp->evals++; cp->outcomes[ctag(E) + k + ":" + fam]++; };
     // ---- bookkeeping getters
     if (G.isSetDomainTransfrom() != lin || G.isSetConformalTransformASIN() != conf){ rep(pre(E, "flags") + tag, "isSetDomainTransfrom/isSetConformalTransformASIN = " + std::to_string(G.isSetDomainTransfrom()) + "/" + std::to_string(G.isSetConformalTransformASIN())); return; }
@@ -296,7 +297,7 @@ static bool conformal_applies(const Cfg &c){ return c.fam != F_FOURIER && domkin
 
 static bool same_obs(Ctx &c, const Cfg &E, const TasmanianSparseGrid &G, const TasmanianSparseGrid &F, const std::string &hist, const char *what){
     c.evals++; c.outcomes[std::string("history-independence:") + famname(E.fam)]++;
-    if (obs(G) != obs(F) || G.getQuadratureWeights() != F.getQuadratureWeights()){ report(c, std::string("C10:history:") + what + ":" + rtag(G), E, hist, std::string("the observation (points, values, coefficients, transforms, quadrature weights) differs from that of a fresh grid built directly with the same transform (") + what + ")"); return false; }
+    if (obs(G) != obs(F) || G.getQuadratureWeights() != F.getQuadratureWeights()){ report(c, std::string("C10:history:") + what + ":" + rtag(G), g_cfg0 ? *g_cfg0 : E, hist + " | transforms of the state: " + E.str().substr(E.str().find(";order=") + 1), std::string("the observation (points, values, coefficients, transforms, quadrature weights) differs from that of a fresh grid built directly with the same transform (") + what + ")"); return false; }
     return true;
 }
 
@@ -304,7 +305,7 @@ static bool same_obs(Ctx &c, const Cfg &E, const TasmanianSparseGrid &G, const T
 static int g_ab_index(const Cfg &cfg){ for(int i=0;i<3;i++){ std::vector<double> a, b; ab_alphabet(cfg, i, a, b); if (a == cfg.ta && b == cfg.tb) return i; } return -1; }
 
 static void explore_cfg(Ctx &c, const Cfg &cfg){
-    int d = cfg.dims; std::string hist = "make"; g_hang_seen = false;
+    int d = cfg.dims; std::string hist = "make"; g_hang_seen = false; g_cfg0 = &cfg;
     Cfg can = cfg; can.ta.clear(); can.tb.clear(); can.conformal.clear();
     try{
         TasmanianSparseGrid G, C; make(G, cfg); make(C, can); c.transitions += 1 + (cfg.ta.empty() ? 0 : 1) + (cfg.conformal.empty() ? 0 : 1);
@@ -334,7 +335,7 @@ static void explore_cfg(Ctx &c, const Cfg &cfg){
             bool okflags = R.isSetDomainTransfrom() == !E.ta.empty() && R.isSetConformalTransformASIN() == !E.conformal.empty();
             if (okflags && !E.ta.empty()){ std::vector<double> a, b; R.getDomainTransform(a, b); okflags = (a == E.ta && b == E.tb); }
             if (okflags && !E.conformal.empty()) okflags = (R.getConformalTransformASIN() == E.conformal);
-            if (!okflags || R.getPoints() != G.getPoints()){ report(c, "C10:" + ctag(E) + "write-read:" + (E.conformal.empty() ? rtag(G) : std::string(famname(E.fam))), E, h2, "the restored grid does not carry the same transforms / points"); }
+            if (!okflags || R.getPoints() != G.getPoints()){ report(c, "C10:" + ctag(E) + "write-read:" + (E.conformal.empty() ? rtag(G) : std::string(famname(E.fam))), cfg, h2, "the restored grid does not carry the same transforms / points"); }
             else if (bin) check(c, E, R, C, h2);
         }
     }catch(std::exception &e){ report(c, "C10:throws:" + rtag(cfg), cfg, hist, std::string("exception after '") + hist + "': " + e.what()); c.outcomes[std::string("throws:") + famname(cfg.fam)]++; }
